@@ -521,6 +521,40 @@ func rejectionsPart(r *ev.Report, dir string) {
 	r.Extra["startup_rejections"] = done
 }
 
+// largeFilesPart: a configuration file may be long (comments, many feeds). Files of one to
+// four MiB whose last lines carry a valid setting, a malformed colour or a syntax error are
+// read like short ones: the setting takes effect, the errors are diagnosed.
+func largeFilesPart(r *ev.Report, dir string) {
+	line := "#" + strings.Repeat("x", 62) + "\n" // 64 bytes
+	var n int64
+	for _, lines := range []int{1024, 16383, 16384, 16385, 32768, 65536} {
+		pad := strings.Repeat(line, lines)
+		for _, head := range []string{"", "[media]\nhook = [\"x\"]\n"} {
+			for _, tail := range []struct{ text, expect string }{
+				{"[network]\npreload_amount = 7\n", "accept"},
+				{"[style.colors]\nprimary = \"#GGGGGG\"\n", "reject"},
+				{"[network\n", "reject"},
+				{"[network]\ncache_size = \"many\"\n", "reject"},
+			} {
+				n++
+				text := head + pad + tail.text
+				cfg, err, pan := loadText(dir, text)
+				c := map[string]any{"large_file": true, "bytes": len(text), "head": head, "tail": tail.text}
+				switch {
+				case pan != "":
+					r.Violation("config:large-file:panic", map[string]any{"case": c, "msg": pan})
+				case tail.expect == "reject" && err == nil:
+					r.Violation("config:large-file:accepted", map[string]any{"case": c, "msg": fmt.Sprintf("a file of %d bytes whose last lines cannot be accepted was accepted", len(text))})
+				case tail.expect == "accept" && (err != nil || cfg == nil || cfg.Network.Context != 7):
+					r.Violation("config:large-file:setting-ignored", map[string]any{"case": c, "msg": fmt.Sprintf("a setting in the last lines of a file of %d bytes did not take effect (error: %v)", len(text), err)})
+				}
+			}
+		}
+	}
+	r.Eval(n)
+	r.Extra["large_files"] = n
+}
+
 func probe(dir string, n int, text string) (exit int, out string) {
 	home := filepath.Join(dir, fmt.Sprintf("p%d", n))
 	os.MkdirAll(filepath.Join(home, "servitor"), 0o755)
@@ -557,6 +591,7 @@ func main() {
 			"through the real parser against a reference acceptance predicate (reject / accept / range-checked either way); (iii) every accepted configuration of (ii)'s first product with at most two keys set (all singles and all pairs) starts a probe process driving the real UI (open, move, select, follow and open links, history, creators, every configured feed and an unknown one, resize); "+
 			"(iv) six start-up environments (file empty / absent under XDG_CONFIG_HOME, only HOME, neither variable, both empty, file under $HOME/.config): the configuration in effect after servitor's own init must be the same defaults, with well-formed colours, and the HOME file must be used; "+
 			"(v) 510 unreadable files (17 fragments cut off mid-value x 6 beginnings incl. CRLF and a byte order mark x 5 endings incl. none) through the real start-up in a child process: a diagnostic and exit status 1, never a crash; "+
+			"(vi) 48 long files (64 kB..4 MiB of comments, around the 1 MiB mark to the byte) ending in a valid setting, a malformed colour or a syntax error; "+
 			"distinct_nontrivial = configuration files that deviate from the defaults")
 	dir, _ := os.MkdirTemp(os.Getenv("VERIF_SCRATCH"), "c19")
 	defer os.RemoveAll(dir)
@@ -660,6 +695,7 @@ func main() {
 	}
 	environmentsPart(r, dir)
 	rejectionsPart(r, dir)
+	largeFilesPart(r, dir)
 	r.Sample(cfgCase{"[media]\nhook = []\n[network]\ncache_size = 0\n", "range"})
 	r.Sample(cfgCase{"[style.colors]\nprimary = \"#GGGGGG\"\n", "reject"})
 	// missing file, directory in place of the file, defaults
